@@ -40,12 +40,12 @@ class WbDecWorld(World):
         dw = rng.choice([8, 16, 32, 64])
         g = rng.choice([x for x in (8, 16, 32, 64) if x <= dw])
         gb = log2(dw // g)
-        aw = rng.range(1, 7)
+        aw = rng.range(1, 7) if not rng.chance(0.1) else rng.range(8, 10)
         feats = rng.subset(FEATS)
         al = rng.choice([0, 0, 1, 2, 3])
         mmaw = max(1, aw + gb)
         subs = []
-        for i in range(rng.range(0, 5)):
+        for i in range(rng.range(0, 5) if not rng.chance(0.1) else rng.range(6, 8)):
             sparse = rng.chance(0.3)
             if sparse:
                 sdw = rng.choice([x for x in (8, 16, 32, 64) if x <= g])
